@@ -419,6 +419,7 @@ def reason_hook(arm):
 def rule_negotiated(R):
     """the window is the one granted by the CONNACK of this connection"""
     roles.clause_negotiated_per_connection(R, "init", ("send_quota", "max_send_quota"))
+    roles.clause_connack_walk_complete(R, "init/connack-walk-complete")
 
 
 def rule_reason(R):
